@@ -415,7 +415,11 @@ func checkRequestsNotMutated(p *Prog, r *Report, clause, typesPkg string) {
 	}
 	sc := pk.Types.Scope()
 	for _, name := range sc.Names() {
-		if !strings.HasPrefix(name, "Query") || !strings.HasSuffix(name, "Request") {
+		// the stored entity types are in scope with their validation methods only: the keeper validates a token and then stores it,
+		// so a validator that tidies its receiver up (trimmed identifiers) makes the token land under another key than the one the
+		// permission checks were made for
+		entity := name == "Pnft" || name == "Denom"
+		if !entity && (!strings.HasPrefix(name, "Query") || !strings.HasSuffix(name, "Request")) {
 			continue
 		}
 		tn, ok := sc.Lookup(name).(*types.TypeName)
@@ -430,6 +434,9 @@ func checkRequestsNotMutated(p *Prog, r *Report, clause, typesPkg string) {
 		for i := 0; i < ms.Len(); i++ {
 			fn := p.SSA.MethodValue(ms.At(i))
 			if fn == nil || fn.Blocks == nil || p.IsGenerated(fn) || fn.Synthetic != "" {
+				continue
+			}
+			if entity && !strings.HasPrefix(fn.Name(), "Valid") {
 				continue
 			}
 			n++
